@@ -647,19 +647,17 @@ pub proof fn lemma_no_balances_zero(s: Raw)
             assert forall|i: int, j: int| 0 <= i < j < sorted.len() implies (#[trigger] sorted[i])@ != (#[trigger] sorted[j])@ by {
                 if sorted[i]@ == sorted[j]@ { assert(str_le(sorted[i]@, sorted[i + 1]@) && str_le(sorted[i + 1]@, sorted[j]@)); assert(sorted[i]@ != sorted[i + 1]@); }
             }
-            let p = choose|p: Seq<int>| is_perm(p, accounts@.len() as int) && forall|i: int| 0 <= i < sorted.len() ==> #[trigger] sorted[i] == addrs0[p[i]];
+            assert(exists|p: Seq<int>| is_perm(p, accounts@.len() as int) && forall|i: int| 0 <= i < sorted.len() ==> *(#[trigger] sorted[i]) == accounts@[p[i]].address);
+            let p = choose|p: Seq<int>| is_perm(p, accounts@.len() as int) && forall|i: int| 0 <= i < sorted.len() ==> *(#[trigger] sorted[i]) == accounts@[p[i]].address;
             assert forall|a: int, b: int| 0 <= a < b < accounts@.len() implies (#[trigger] accounts@[a]).address@ != (#[trigger] accounts@[b]).address@ by {
                 assert(perm_hits(p, accounts@.len() as int, a) && perm_hits(p, accounts@.len() as int, b));
                 let i = choose|i: int| 0 <= i < accounts@.len() && #[trigger] p[i] == a;
                 let j = choose|j: int| 0 <= j < accounts@.len() && #[trigger] p[j] == b;
-                assert(sorted[i] == addrs0[a] && sorted[j] == addrs0[b]);
-                assert(*addrs0[a] == accounts@[a].address && *addrs0[b] == accounts@[b].address);
+                assert(*sorted[i] == accounts@[a].address && *sorted[j] == accounts@[b].address);
                 if i < j { assert(sorted[i]@ != sorted[j]@); } else { assert(i != j); assert(sorted[j]@ != sorted[i]@); }
             }
         }
     }
-@insert_before "addresses.sort()" 1
-    let ghost addrs0 = addresses@;
 @end
 
 @fn contracts/cw20-base/src/contract.rs create_accounts [loops: 1]
